@@ -552,6 +552,57 @@ def run_same_read(params, known):
     return dict(name=params['name'], kind='enum', evaluations=count, nontrivial_keys=sorted(keys), violations=violations, known=[], samples=[])
 
 
+def run_early_closure(params, known):
+    """The connection is closed while output still waits to be written: the peer's contact header (bad magic,
+    version 3, version 255, a good one) is already there when the endpoint's loop first runs, so it is read - and
+    refused - before the endpoint's own header has left; or the peer says something out of place (or ends the
+    session) and closes before the answer has been written.  Afterwards the loop runs on until quiet: no callback
+    raises, the socket is closed."""
+    import itertools
+    violations = []
+    kinds = set()
+    keys = set()
+    count = 0
+
+    def viol(kind, detail, case):
+        if kind in kinds:
+            return
+        kinds.add(kind)
+        v = Violation(PROP, 'adversary', kind, dict(), '%r: %s' % (case, detail)).as_dict()
+        v['case'] = case
+        violations.append(v)
+    heads = {'bad-magic': b'dtm!\x04\x00', 'version-3': b'dtn!\x03\x00', 'version-255': b'dtn!\xff\x00', 'short-then-closed': b'dtn', 'good': T.enc_contact(0)}
+    for (role, hname, then) in itertools.product(('active', 'passive'), sorted(heads), ('stays', 'closes')):
+        count += 1
+        case = dict(role=role, first_octets_of_the_peer=hname, peer=then, when='before the first loop turn')
+        w = PeerWorld(dict(role=role, keepalive=0, idle=0, seg_mru=64, tx_init=64, peer_first=heads[hname].hex()))
+        if then == 'closes':
+            w.peer_close()
+        w.quiesce()
+        keys.add('%s/%s/%s' % (role, hname, then))
+        if w.escaped:
+            viol('exception-escaped-callback', '%s: %s' % (w.escaped[-1][0], w.escaped[-1][2]), case)
+        elif hname in ('bad-magic', 'version-3', 'version-255') and not w.r_closed():
+            viol('bad-contact-header-not-refused', 'socket still open', case)
+    strays = {'segment-without-start': T.enc_segment(1, 9, b'zz'), 'ack-of-nothing': T.enc_ack(1, 9, 5), 'second-sess-init': T.enc_sess_init(0, 64, 1000, b'dtn://p/'),
+              'unknown-type': b'\x99\x00', 'sess-term': T.enc_sess_term(0, 0)}
+    for (role, sname, chunk) in itertools.product(('active', 'passive'), sorted(strays), (10240, 3)):
+        count += 1
+        case = dict(role=role, peer_says=sname, peer='closes at once', read_chunk=chunk)
+        w = PeerWorld(dict(role=role, keepalive=0, idle=0, seg_mru=64, tx_init=64, chunk=chunk))
+        w.peer_write(T.enc_contact(0) + T.enc_sess_init(0, 64, 1000, b'dtn://p/'))
+        w.quiesce()
+        w.peer_write(strays[sname])
+        w.peer_close()
+        w.quiesce()
+        keys.add('%s/%s/%d' % (role, sname, chunk))
+        if w.escaped:
+            viol('exception-escaped-callback', '%s: %s' % (w.escaped[-1][0], w.escaped[-1][2]), case)
+        elif not w.r_closed():
+            viol('connection-left-half-open', 'the peer has closed, the endpoint has not (state %r)' % (w.handler().get_session_state(),), case)
+    return dict(name=params['name'], evaluations=count, nontrivial_keys=sorted(keys), violations=violations, known=[], samples=[])
+
+
 def run_unstarted(params, known):
     '''The out-of-place message concerns a transfer of the endpoint that is queued but of which
     nothing has been sent yet: one or two bundles are handed to an established endpoint and, before
@@ -669,6 +720,7 @@ def scenarios(tier):
     out.append(dict(name='agent-bystander', kind='enum', runner='run_agent_bystander', params=dict(name='agent-bystander'), weight=60))
     out.append(dict(name='same-read', kind='enum', runner='run_same_read', params=dict(name='same-read'), weight=30))
     out.append(dict(name='unstarted-transfer', kind='enum', runner='run_unstarted', params=dict(name='unstarted-transfer'), weight=30))
+    out.append(dict(name='early-closure', kind='enum', runner='run_early_closure', params=dict(name='early-closure'), weight=5))
     for role in ('passive', 'active'):
         tag = '' if role == 'passive' else 'active/'
         for first in ('ch-bad-magic', 'ch-v3', 'ch-v3-not-utf8', 'ch-v5', 'ch-v255'):
